@@ -524,16 +524,17 @@ Fixpoint immret_s (ok : nat -> bool) (s : stmt) : stmt :=
   | SFor t it body => SFor t it (ib body)
   | _ => s
   end.
-Fixpoint immret_b (ok : nat -> bool) (b : list stmt) : list stmt :=
-  match b with
-  | [] => []
-  | s1 :: tl =>
-      match s1, tl with
-      | SAssign x e, SRet (EName y) :: tl' =>
-          if Nat.eqb x y && ok x then SRet e :: immret_b ok tl' else immret_s ok s1 :: immret_b ok tl
-      | _, _ => immret_s ok s1 :: immret_b ok tl
-      end
-  end.
+Definition immret_b (ok : nat -> bool) : list stmt -> list stmt :=
+  fix ib (b : list stmt) : list stmt :=
+    match b with
+    | [] => []
+    | s1 :: tl =>
+        match s1, tl with
+        | SAssign x e, SRet (EName y) :: tl' =>
+            if Nat.eqb x y && ok x then SRet e :: ib tl' else immret_s ok s1 :: ib tl
+        | _, _ => immret_s ok s1 :: ib tl
+        end
+    end.
 Definition immret_ok (body : list stmt) (x : nat) : bool :=
   Nat.eqb (count_b x body) 1 && Nat.eqb (loads_b x body) 1.
 Definition immret_ok_old (body : list stmt) (x : nat) : bool := Nat.eqb (count_b x body) 1.
@@ -616,22 +617,44 @@ Definition reads_us_b (b : list stmt) : bool := existsb reads_us_s b.
 Record lam := mkLam { l_params : list nat; l_ndefaults : nat; l_vararg : option nat; l_body : expr }.
 Inductive lrepl := LBi (b : bi) | LFun (f : nat).
 
-Definition forward_args (l : lam) : list expr :=
-  map EName (l_params l) ++ match l_vararg l with Some a => [EStar (EName a)] | None => [] end.
+(* are the call arguments exactly the parameters, in order, and *vararg *)
+Fixpoint is_forward (xs : list nat) (va : option nat) (args : list expr) : bool :=
+  match xs, args with
+  | x :: xs', EName y :: args' => Nat.eqb x y && is_forward xs' va args'
+  | [], [EStar (EName y)] => match va with Some a => Nat.eqb a y | None => false end
+  | [], [] => match va with Some _ => false | None => true end
+  | _, _ => false
+  end.
+
+Definition seq_bi (k : skind) : bi := match k with KList => BList | KTuple => BTuple | KSet => BSet end.
+
+Definition lam_literal (l : lam) : option lrepl :=
+  match l_params l, l_vararg l with
+  | [], None =>
+      match l_body l with
+      | ESeq KList [] => Some (LBi BList)
+      | ESeq KTuple [] => Some (LBi BTuple)
+      | EDict [] => Some (LBi BDict)
+      | _ => None
+      end
+  | [x], None =>
+      match l_body l with
+      | ESeq k [EStar (EName y)] => if Nat.eqb x y then Some (LBi (seq_bi k)) else None
+      | _ => None
+      end
+  | _, _ => None
+  end.
+
+Definition lam_forward (l : lam) : option lrepl :=
+  match l_body l with
+  | ECall f args => if is_forward (l_params l) (l_vararg l) args then Some (LFun f) else None
+  | EBi b args => if is_forward (l_params l) (l_vararg l) args then Some (LBi b) else None
+  | _ => None
+  end.
 
 Definition rw_lambda_gen (check_defaults : bool) (l : lam) : option lrepl :=
-  if check_defaults && negb (Nat.eqb (l_ndefaults l) 0) then None else
-  match l_params l, l_vararg l, l_body l with
-  | [], None, ESeq KList [] => Some (LBi BList)
-  | [], None, EDict [] => Some (LBi BDict)
-  | [], None, ESeq KTuple [] => Some (LBi BTuple)
-  | [x], None, ESeq KList [EStar (EName y)] => if Nat.eqb x y then Some (LBi BList) else None
-  | [x], None, ESeq KSet [EStar (EName y)] => if Nat.eqb x y then Some (LBi BSet) else None
-  | [x], None, ESeq KTuple [EStar (EName y)] => if Nat.eqb x y then Some (LBi BTuple) else None
-  | _, _, ECall f args => if lexpr_eqb args (forward_args l) then Some (LFun f) else None
-  | _, _, EBi b args => if lexpr_eqb args (forward_args l) then Some (LBi b) else None
-  | _, _, _ => None
-  end.
+  if check_defaults && negb (Nat.eqb (l_ndefaults l) 0) then None
+  else match lam_literal l with Some r => Some r | None => lam_forward l end.
 Definition rw_lambda := rw_lambda_gen true.
 Definition rw_lambda_old := rw_lambda_gen false.
 
